@@ -14,6 +14,7 @@ Init == /\ o \in Objs /\ D \in Defaults /\ (o.issuer = "none" => D.issuer = "non
 CorruptDict(d) == CASE cor = "none" -> d
                     [] cor = "no-type" -> [d EXCEPT !.type = Absent]
                     [] cor = "bad-type" -> [d EXCEPT !.type = "hotp"]
+                    [] cor = "fragment-type" -> [d EXCEPT !.type = "otp"]          \* a fragment of the right word is still a wrong type
                     [] cor = "no-version" -> [d EXCEPT !.v = 0]
                     [] cor = "future-version" -> [d EXCEPT !.v = 99]
                     [] cor = "no-key" -> [d EXCEPT !.key = Absent]
@@ -23,6 +24,7 @@ DupOf == [x \in {"dup-secret", "dup-issuer", "dup-digits", "dup-period", "dup-al
 CorruptUri(u) == CASE cor = "none" -> u
                    [] cor = "bad-scheme" -> [u EXCEPT !.scheme = "http"]
                    [] cor = "bad-type" -> [u EXCEPT !.type = "hotp"]
+                   [] cor = "fragment-type" -> [u EXCEPT !.type = "otp"]
                    [] cor = "no-label" -> [u EXCEPT !.label = Absent]
                    [] cor = "no-key" -> [u EXCEPT !.params = Tail(u.params)]
                    [] cor \in DOMAIN DupOf -> LET nm == DupOf[cor]  v == IF Param(u, nm) = Absent THEN "dup-value" ELSE Param(u, nm) IN
@@ -30,8 +32,8 @@ CorruptUri(u) == CASE cor = "none" -> u
                                                [u EXCEPT !.params = IF Param(u, nm) = Absent THEN u.params \o <<<<nm, v>>, <<nm, v>>>> ELSE Append(u.params, <<nm, v>>)]
                    [] cor = "issuer-conflict" -> [u EXCEPT !.prefix = "other-issuer", !.params = Append(SelectSeq(u.params, LAMBDA p : p[1] # "issuer"), <<"issuer", "iss-x">>)]
                    [] OTHER -> u
-Applicable == IF fmt = "uri" THEN cor \in {"none", "bad-scheme", "bad-type", "no-label", "no-key", "issuer-conflict"} \cup DOMAIN DupOf
-              ELSE cor \in {"none", "no-type", "bad-type", "no-version", "future-version", "no-key"}
+Applicable == IF fmt = "uri" THEN cor \in {"none", "bad-scheme", "bad-type", "fragment-type", "no-label", "no-key", "issuer-conflict"} \cup DOMAIN DupOf
+              ELSE cor \in {"none", "no-type", "bad-type", "fragment-type", "no-version", "future-version", "no-key"}
 
 RoundTrip ==
     /\ res = <<"pending">> /\ Applicable
